@@ -50,6 +50,8 @@ func vhFixture() []vhExpected {
 			greq.Req{Path: []greq.KV{{"name", "t"}}}},
 		{"PUT", "/other/things/{name}", "ThingsController.PutThing", vhSecDefault,
 			greq.Req{Path: []greq.KV{{"name", "t"}}, Query: []greq.KV{{"big", "123456789012"}}}},
+		{"GET", "/api/scale", "ItemsController.Scale", vhSecS0,
+			greq.Req{Query: []greq.KV{{"ratio", "1.5"}}}},
 	}
 }
 
